@@ -11,7 +11,7 @@ use crate::postings::Postings;
 use crate::DocId;
 
 const ND: usize = 2; // docs per posting list
-const NP: usize = 2; // positions per doc
+const NP: usize = 1; // positions per doc
 
 #[derive(Clone, Copy)]
 pub(crate) struct ArrPostings {
@@ -38,10 +38,7 @@ impl ArrPostings {
         let mut d = 0;
         while d < ND {
             kani::assume(npos[d] >= 1 && npos[d] <= NP);
-            kani::assume(pos[d][0] < 1000 && pos[d][1] < 1000);
-            if npos[d] > 1 {
-                kani::assume(pos[d][0] < pos[d][1]);
-            }
+            kani::assume(pos[d][0] < 1000);
             d += 1;
         }
         ArrPostings { docs, len, pos, npos, cur: 0 }
@@ -59,7 +56,7 @@ impl ArrPostings {
     pub(crate) fn has(&self, doc: DocId, p: u32) -> bool {
         match self.idx(doc) {
             None => false,
-            Some(i) => self.pos[i][0] == p || (self.npos[i] > 1 && self.pos[i][1] == p),
+            Some(i) => self.pos[i][0] == p,
         }
     }
 }
@@ -181,7 +178,7 @@ fn step(ds: &mut PhrasePrefixScorer<ArrPostings>, a: &ArrPostings, s: &ArrPostin
     }
 }
 
-fn prog<const STEPS: usize>() {
+fn prog<const STEPS: usize, const OPLO: u8, const OPHI: u8>() {
     let a = ArrPostings::any(300);
     let s = ArrPostings::any(300);
     let mut ds = scorer(a, s);
@@ -191,7 +188,7 @@ fn prog<const STEPS: usize>() {
     while i < STEPS {
         if !stop {
             let op: u8 = kani::any();
-            kani::assume(op < 3);
+            kani::assume(op >= OPLO && op < OPHI);
             if !step(&mut ds, &a, &s, op) {
                 stop = true;
             }
@@ -204,12 +201,18 @@ fn prog<const STEPS: usize>() {
 
 #[kani::proof]
 #[kani::unwind(5)]
-fn c13_phrase_prefix_single_prog1() {
-    prog::<1>();
+fn c13_phrase_prefix_single_seek_danger() {
+    prog::<1, 2, 3>();
+}
+
+#[kani::proof]
+#[kani::unwind(5)]
+fn c13_phrase_prefix_single_seek_adv() {
+    prog::<1, 0, 2>();
 }
 
 #[kani::proof]
 #[kani::unwind(5)]
 fn c13_phrase_prefix_single_prog2() {
-    prog::<2>();
+    prog::<2, 0, 3>();
 }
